@@ -21,12 +21,18 @@ class AnalysisError(Exception):
 
 
 class Module(object):
-    def __init__(self, name, path, src):
+    def __init__(self, name, path, src, defer=False):
         self.name = name
         self.path = path  # relative, e.g. paramiko/packet.py
         self.src = src
         self.lines = src.splitlines()
         self.tree = ast.parse(src, filename=path)
+        self.delegations_undone = []
+        if not defer:
+            self.finish()
+
+    def finish(self):
+        name = self.name
         from . import alpha, normal
         # meaning-preserving surface forms are undone before any rule looks (core/normal.py, core/alpha.py)
         self.alpha_mapped = alpha.canonicalise(self.tree, name)      # pure renamings first, so that N3 sees canonical names
@@ -122,11 +128,14 @@ class Program(object):
                     src = fh.read().decode("utf-8")
             modname = f[:-3]
             try:
-                m = Module(modname, rel, src)
+                m = Module(modname, rel, src, defer=True)
             except SyntaxError as e:
                 raise AnalysisError("parse:" + rel, str(e))
             self.modules[modname] = m
         from . import normal
+        self.delegations_undone = normal.undo_delegations(dict((k, m.tree) for k, m in self.modules.items()))
+        for m in self.modules.values():
+            m.finish()
         self.dead_bookkeeping = normal.drop_dead_bookkeeping(dict((k, m.tree) for k, m in self.modules.items()))
         for m in self.modules.values():
             for st in ast.walk(m.tree):
